@@ -69,7 +69,7 @@ def mk_batches(ex, st, shape, symbolic_kinds=False):
     return out
 
 
-def run_recover(ctx, n_ks=2, shape=((2, 0), (1, 1)), loop_bound=None, symbolic_kinds=False, sealed_shape=None):
+def run_recover(ctx, n_ks=2, shape=((2, 0), (1, 1)), loop_bound=None, symbolic_kinds=False, sealed_shape=None, track_sealed_call=False):
     """returns (executor, paths, env)"""
     fn = ctx.prog.find(r'^db::<impl>::recover$')
     env = Env()
@@ -79,6 +79,14 @@ def run_recover(ctx, n_ks=2, shape=((2, 0), (1, 1)), loop_bound=None, symbolic_k
     env.meta_persisted = (z3.Bool('meta.has_persisted'), z3.BitVec('meta.persisted', 64))
 
     def ov_ok_unit(ex, st, call):
+        return ex.mk_enum(call.dst_ty, 'Ok', [ex.unit()])
+
+    def ov_sealed_stub(ex, st, call):
+        from ..contract import seq_items
+        v = deref(call.args[1])
+        its = seq_items(v) if isinstance(v, Obj) else None
+        order = [getattr(deref(c.val), 'name', '?').rstrip("'") for c in its] if its is not None else None
+        st.emit(Ev('RECOVER_SEALED', args={'order': order}, site=call.site))
         return ex.mk_enum(call.dst_ty, 'Ok', [ex.unit()])
 
     def ov_lock(ex, st, call):
@@ -95,7 +103,12 @@ def run_recover(ctx, n_ks=2, shape=((2, 0), (1, 1)), loop_bound=None, symbolic_k
         j = Obj('journal::Journal', 'active_journal', 'struct')
         rr.fields[names.index('active')] = Cell(j)
         sealed_items = []
-        if env.sealed:
+        if track_sealed_call:
+            for q in range(2):
+                tup = Obj('(u64, PathBuf)', f'sealed{q}', 'tuple')
+                tup.fields[0] = Cell(bv(q)); tup.fields[1] = Cell(Obj('std::path::PathBuf', f'sealed{q}.path', 'opaque'))
+                sealed_items.append(tup)
+        elif env.sealed:
             tup = Obj('(u64, PathBuf)', 'sealed0', 'tuple')
             tup.fields[0] = Cell(bv(0)); tup.fields[1] = Cell(Obj('std::path::PathBuf', 'sealed0.path', 'opaque'))
             sealed_items.append(tup)
@@ -357,7 +370,7 @@ def run_recover(ctx, n_ks=2, shape=((2, 0), (1, 1)), loop_bound=None, symbolic_k
         (r'Journal::recover$', ov_journal_recover),
         (r'lsm_tree::Config::open$', ov_tree_open),
         (r'^recover_keyspaces$|recovery::recover_keyspaces$', ov_recover_keyspaces),
-    ] + ([(r'^recover_sealed_memtables$|recovery::recover_sealed_memtables$', ov_ok_unit)] if not env.sealed else [
+    ] + ([(r'^recover_sealed_memtables$|recovery::recover_sealed_memtables$', ov_sealed_stub)] if not env.sealed else [
         (r'JournalReader::new$', ov_raw_reader_new),
         (r'JournalBatchReader::new$', ov_batch_reader_new),
         (r'Path::metadata$', ov_metadata),
